@@ -51,3 +51,16 @@ Example C17_demo :
   end /\
   TableTransform [124;97;124;10;124;45;124;45;124;10] [mkseg 0 4; mkseg 4 10] = Ok None.
 Proof. vm_compute. split; reflexivity. Qed.
+
+(* ---------------- end to end, for the model of the parser with extension.GFM (model/GfmI.v:
+   the table paragraph transformer inside the block driver, the conversion to Table / Header /
+   Row / Cell nodes, the inline phase in the cells, the escaped-pipe AST transformer; compared
+   with goldmark on every run).  For EVERY source and every subset of the four extensions, every
+   Table node of the tree has one header row with at least one cell, body rows that all have as
+   many cells as the header, cells only, and every cell written in the source carries the
+   alignment of its column (tables_ok / table_rect of model/GfmSpec.v; header, row and cell nodes
+   occur nowhere else). *)
+Require Import GM.model.Html GM.model.InlineParseX GM.model.GfmI GM.model.GfmSpec GM.proofs.GfmTableRect.
+Theorem C17_every_table_rectangular : forall xc src t, ParseTreeX xc src = Ok t -> tables_ok false t = true.
+Proof. exact ParseTreeX_tables_rect. Qed.
+Print Assumptions C17_every_table_rectangular.
